@@ -2618,15 +2618,35 @@ class sptensor:
 
             # Renumber the subscripts
             addsubs = tt_irenumber(value, self.shape, key)
+            addvals = value.vals
+            # A position that an index list names more than once takes what its
+            # last mention assigns (as for a dense tensor), not one entry per mention
+            m = 0
+            for key_n in key:
+                if isinstance(key_n, (float, int)):
+                    continue
+                if not isinstance(key_n, slice) and addsubs.size > 0:
+                    named = np.asarray(key_n)
+                    if len(np.unique(named)) < len(named):
+                        last = {int(pos): i for i, pos in enumerate(named)}
+                        keep = np.array(
+                            [last[int(named[i])] == i for i in value.subs[:, m]]
+                        )
+                        addsubs = addsubs[keep]
+                        addvals = addvals[keep]
+                        value = ttb.sptensor(
+                            value.subs[keep], value.vals[keep], value.shape
+                        )
+                m = m + 1
             if newsubs.size > 0 and addsubs.size > 0:
                 self.subs = np.vstack((newsubs, addsubs))
-                self.vals = np.vstack((newvals, value.vals))
+                self.vals = np.vstack((newvals, addvals))
             elif newsubs.size > 0:
                 self.subs = newsubs
                 self.vals = newvals
             elif addsubs.size > 0:
                 self.subs = addsubs
-                self.vals = value.vals.copy()
+                self.vals = addvals.copy()
             else:
                 self.subs = np.array([], ndmin=2, dtype=int)
                 self.vals = np.array([], ndmin=2)
